@@ -38,6 +38,10 @@ Definition np_ibcast {A B} (f : A -> B -> res A) (db : B) (a : list A) (b : list
   else Err EValue.                      (* non-broadcastable output operand *)
 
 Definition np_arith (o : aop) (a b : list Q) : res (list Q) := np_bcast (aop_q o) 0 0 a b.
+(* NumPy's true_divide with the single deviation the sparse classes make by design: 0/0 is 0 (not an error) *)
+Definition qdiv0 (x y : Q) : res Q :=
+  if qzerob y then (if qzerob x then Ok 0 else Err EZeroDiv) else Ok (x / y).
+Definition np_div0 (a b : list Q) : res (list Q) := np_bcast qdiv0 0 0 a b.
 Definition np_iarith (o : aop) (a b : list Q) : res (list Q) := np_ibcast (aop_q o) 0 a b.
 Definition np_cmp (c : cmp) (a b : list Q) : res bits := np_bcast (fun x y => Ok (qcmp c x y)) 0 0 a b.
 Definition lop_b (o : lop) (x y : bool) : res bool :=
@@ -109,6 +113,23 @@ Definition darg (s : dstore) (a : arg) : option (list Q) :=
   | _ => None
   end.
 Definition dres {A} (r : res A) (f : A -> doutcome) : doutcome := match r with Ok x => f x | Err e => DErr e end.
+(* a 2-d array against a 1-d operand (a vector, a list, a scalar): NumPy aligns the trailing axis, i.e. row by row *)
+Definition np_arith2 (o : aop) (m : list (list Q)) (w : list Q) : res (list (list Q)) := mapM (fun r => np_arith o r w) m.
+Definition np_iarith2 (o : aop) (m : list (list Q)) (w : list Q) : res (list (list Q)) := mapM (fun r => np_iarith o r w) m.
+(* logical operand of the fragment: a logical vector of the store *)
+Definition dargb (s : dstore) (a : arg) : option bits :=
+  match a with
+  | AObj j => match nth_error s j with Some (DL b) => Some b | _ => None end
+  | _ => None
+  end.
+(* + and * of boolean arrays are logical or / and; & ^ | as written *)
+Definition lop_of_bop (b : bop) : option lop :=
+  match b with
+  | BL o => Some o
+  | BA Add => Some LAdd
+  | BA Mul => Some LMul
+  | _ => None
+  end.
 
 Definition np_step (s : dstore) (o : xop) : dstore * doutcome :=
   let skip := (s, DSkip) in
@@ -119,6 +140,22 @@ Definition np_step (s : dstore) (o : xop) : dstore * doutcome :=
           match np_arith a v w with
           | Ok r => (s ++ [DV r false], DNew (DV r false))
           | Err e => (s, DErr e) end
+      | Some (DA m _), Some w =>
+          match np_arith2 a m w with
+          | Ok r => (s ++ [DA r false], DNew (DA r false))
+          | Err e => (s, DErr e) end
+      | Some (DL b), _ =>
+          match lop_of_bop (BA a), dargb s x with
+          | Some lo, Some w => match np_logic lo b w with
+                               | Ok r => (s ++ [DL r], DNew (DL r))
+                               | Err e => (s, DErr e) end
+          | _, _ => skip end
+      | _, _ => skip end
+  | XOp (OBin (BL lo) i x) =>
+      match nth_error s i, dargb s x with
+      | Some (DL b), Some w => match np_logic lo b w with
+                               | Ok r => (s ++ [DL r], DNew (DL r))
+                               | Err e => (s, DErr e) end
       | _, _ => skip end
   | XOp (OBin (BC c) i x) =>
       match nth_error s i, darg s x with
@@ -134,6 +171,23 @@ Definition np_step (s : dstore) (o : xop) : dstore * doutcome :=
           else match np_iarith a v w with
                | Ok r => (upd s i (DV r ro), DUpd (DV r ro))
                | Err e => (s, DErr e) end
+      | Some (DA m ro), Some w =>
+          if ro then (s, DErr EValue)
+          else match np_iarith2 a m w with
+               | Ok r => (upd s i (DA r ro), DUpd (DA r ro))
+               | Err e => (s, DErr e) end
+      | Some (DL b), _ =>
+          match lop_of_bop (BA a), dargb s x with
+          | Some lo, Some w => match np_ilogic lo b w with
+                               | Ok r => (upd s i (DL r), DUpd (DL r))
+                               | Err e => (s, DErr e) end
+          | _, _ => skip end
+      | _, _ => skip end
+  | XOp (OIBin (BL lo) i x) =>
+      match nth_error s i, dargb s x with
+      | Some (DL b), Some w => match np_ilogic lo b w with
+                               | Ok r => (upd s i (DL r), DUpd (DL r))
+                               | Err e => (s, DErr e) end
       | _, _ => skip end
   | XOp (ORBin a k i) =>
       match nth_error s i with
